@@ -417,7 +417,17 @@ def own(g, rs, ctx):
                       linesearch=bool(rs.rand() < 0.2), random_state=seed, orthogonalise=gen.choice(rs, [False, False, True, 2]))
         elif which == "parafac_mask":
             mask = argkind(rs, (rs.uniform(size=shp) < 0.8).astype(float), ctx)
-            D.parafac(X, R, n_iter_max=it, init=gen.choice(rs, ["svd", "random"]), mask=mask, random_state=seed)
+            Xm_ = X
+            if rs.rand() < 0.4:
+                # the unobserved cells hold NaN placeholders (as they come out of a data frame): whatever the call makes of them,
+                # they are the caller's
+                Xm_ = np.array(X, dtype=float, copy=True)
+                Xm_[np.asarray(mask) == 0] = np.nan
+                ctx.count("own/nan_placeholders")
+            try:
+                D.parafac(Xm_, R, n_iter_max=it, init=gen.choice(rs, ["svd", "random"]), mask=mask, random_state=seed)
+            except (np.linalg.LinAlgError, ValueError):
+                ctx.count("own/nan_placeholders_raised")
         elif which == "nn_parafac":
             D.non_negative_parafac(X, R, n_iter_max=it, init=cp_init(), fixed_modes=fixed() if rs.rand() < 0.6 else None, random_state=seed,
                                    mask=argkind(rs, (rs.uniform(size=shp) < 0.8).astype(float), ctx) if rs.rand() < 0.3 else None)
@@ -734,6 +744,15 @@ def own(g, rs, ctx):
             tenalg.set_backend(prev)
     elif which == "cp_normalize":
         cpm.cp_normalize(gen.choice(rs, [(w, fs), CPTensor((w, fs))]))
+        # a rank-one model written with plain vectors, in the caller's own list
+        vecs = [argkind(rs, rs.standard_normal(s_), ctx) for s_ in shp]
+        ctx.count("own/vector_factors")
+        for call_ in (lambda: CPTensor((None, vecs)), lambda: cpm.cp_mode_dot((None, vecs), rs.standard_normal((2, shp[0])), 0, copy=True),
+                      lambda: cpm.cp_to_tensor((None, vecs)), lambda: cpm.cp_norm((None, vecs))):
+            try:
+                call_()
+            except (ValueError, IndexError, TypeError):
+                pass
     elif which == "mttkrp":
         tenalg.unfolding_dot_khatri_rao(X, (w, fs), int(rs.randint(order)))
     elif which == "kronecker":
